@@ -170,7 +170,8 @@ fn case_fn_mode(case: &mut Case, c12_mode: bool) -> CaseResult {
     let gs = gen_schema(&mut case.ch, &so);
     let mut dopts = DocGenOpts::default();
     dopts.max_frags = 3;
-    let (gd, _) = gen_doc(&mut case.ch, &gs.schema, &dopts);
+    let (mut gd, _) = gen_doc(&mut case.ch, &gs.schema, &dopts);
+    gd.doc = vh::props::c08::tame_exponential(case, &gs.schema, std::mem::take(&mut gd.doc));
     // lower-case some operation names so that capitalisation matters: the pools already mix
     let doc = gd.doc.clone();
     let mut opts = gen_opts(&mut case.ch);
@@ -195,28 +196,23 @@ fn case_fn_mode(case: &mut Case, c12_mode: bool) -> CaseResult {
     let as_json = case.ch.chance(1, 3);
     let cfg_text = config_text(&opts, as_json);
     let schema_text = canon_ts(&gs.doc);
-    // optionally move the fragments into a second file imported by the first
-    let split = case.ch.chance(1, 3) && doc.iter().any(|d| matches!(d, MExecDef::Frag(_))) && doc.iter().any(|d| matches!(d, MExecDef::Op(_)));
-    let (main_doc, lib_doc): (MOpDoc, MOpDoc) = if split {
-        let frags: MOpDoc = doc.iter().filter(|d| matches!(d, MExecDef::Frag(_))).cloned().collect();
-        let mut main: MOpDoc = vec![MExecDef::Import(MImport { targets: vec![None], path: "./lib.graphql".into() })];
-        main.extend(doc.iter().filter(|d| matches!(d, MExecDef::Op(_))).cloned());
-        (main, frags)
-    } else {
-        (doc.clone(), vec![])
-    };
-    let main_text = canon_op(&main_doc);
-    let lib_text = canon_op(&lib_doc);
-    let detail = json!({"config": cfg_text, "schema": schema_text, "main.graphql": main_text, "lib.graphql": if split { json!(lib_text) } else { json!(null) }});
+    // fragments (and some operations) are distributed over up to four files connected by #import lines
+    // (chains, diamonds, cycles; by name or wildcard); the file under test is the main one
+    let fsplit = vh::split::split_into_files(&mut case.ch, &doc);
+    let files: Vec<(String, MOpDoc, String)> = fsplit.files.iter().map(|(rel, m)| (format!("/p/{rel}"), m.clone(), canon_op(m))).collect();
+    let split = files.len() > 1;
+    let main_doc: MOpDoc = files[0].1.clone();
+    let main_text = files[0].2.clone();
+    // every definition of the project (the models, not nitrogql's view)
+    let all_defs: MOpDoc = files.iter().flat_map(|f| f.1.iter().filter(|d| !matches!(d, MExecDef::Import(_))).cloned()).collect();
+    let files_json = json!(files.iter().map(|f| json!({"path": f.0, "text": f.2})).collect::<Vec<_>>());
+    let detail = json!({"config": cfg_text, "schema": schema_text, "files": files_json});
 
     // declaration side, as cli/src/generate.rs builds it
     let config = guard(|| parse_config(&cfg_text)).map_err(|p| panic_failure("parse_config", &p, detail.clone()))?;
     let Some(config) = config else { return Err(Failure::new("harness:config-rejected", "generated config rejected", detail)) };
     let sfiles = vec![(PathBuf::from("/p/schema.graphql"), schema_text.clone())];
-    let mut ofiles = vec![(PathBuf::from("/p/main.graphql"), main_text.clone())];
-    if split {
-        ofiles.push((PathBuf::from("/p/lib.graphql"), lib_text.clone()));
-    }
+    let ofiles: Vec<(PathBuf, String)> = files.iter().map(|f| (PathBuf::from(&f.0), f.2.clone())).collect();
     let ss = schema_stage(&sfiles, &detail)?;
     if !ss.ok() {
         let d = ss.all_diags();
@@ -244,7 +240,7 @@ fn case_fn_mode(case: &mut Case, c12_mode: bool) -> CaseResult {
     } else {
         None
     };
-    let task = abi::initiate_task("/p/main.graphql", &main_text).map_err(|e| Failure::new("loader-initiate-failed", e, detail.clone()))?;
+    let task = abi::initiate_task(&files[0].0, &main_text).map_err(|e| Failure::new("loader-initiate-failed", e, detail.clone()))?;
     let mut third = None;
     if let Some(o) = other {
         let _ = abi::get_required_files(o);
@@ -254,12 +250,22 @@ fn case_fn_mode(case: &mut Case, c12_mode: bool) -> CaseResult {
         case.label("interleaved-tasks");
     }
     let res = (|| -> Result<String, Failure> {
-        let req = abi::get_required_files(task).map_err(|e| Failure::new("loader-required-failed", e, detail.clone()))?;
-        if split {
-            if req != vec!["/p/lib.graphql".to_string()] {
-                return Err(Failure::new("loader-required-files", format!("asked for {req:?}"), detail.clone()));
+        let mut rounds = 0;
+        loop {
+            rounds += 1;
+            let req = abi::get_required_files(task).map_err(|e| Failure::new("loader-required-failed", e, detail.clone()))?;
+            if req.is_empty() {
+                break;
             }
-            abi::load_file(task, "/p/lib.graphql", &lib_text).map_err(|e| Failure::new("loader-load-failed", e, detail.clone()))?;
+            if rounds > 12 {
+                return Err(Failure::new("loader-required-files", format!("still asking for {req:?} after 12 rounds"), detail.clone()));
+            }
+            for r in req {
+                let Some(f) = files.iter().find(|f| f.0 == r) else {
+                    return Err(Failure::new("loader-required-files", format!("asked for {r}, which no import of the project denotes"), detail.clone()));
+                };
+                abi::load_file(task, &f.0, &f.2).map_err(|e| Failure::new("loader-load-failed", e, detail.clone()))?;
+            }
         }
         abi::emit_js(task).map_err(|e| Failure::new("loader-emit-failed", e, detail.clone()))
     })();
@@ -268,12 +274,11 @@ fn case_fn_mode(case: &mut Case, c12_mode: bool) -> CaseResult {
         abi::free_task(t);
     }
     let js = res?;
-    let detail = json!({"config": cfg_text, "main.graphql": main_text, "lib.graphql": if split { json!(lib_text) } else { json!(null) }, "dts": dts, "js": js});
+    let detail = json!({"config": cfg_text, "files": files_json, "dts": dts, "js": js});
 
     if c12_mode {
         use vh::props::c12::{check_embedded, embedded_documents};
-        let mut source: Vec<MExecDef> = main_doc.iter().filter(|d| !matches!(d, MExecDef::Import(_))).cloned().collect();
-        source.extend(lib_doc.iter().cloned());
+        let source: Vec<MExecDef> = all_defs.clone();
         let frags = vh::gen_ops::frag_map(&source);
         let docs = embedded_documents(&js).map_err(|e| Failure::new("js-unreadable", e, detail.clone()))?;
         // (the module also holds constants for the imported fragments; each must satisfy the same oracle)
@@ -300,8 +305,22 @@ fn case_fn_mode(case: &mut Case, c12_mode: bool) -> CaseResult {
     let d_ex = exports_of(&dts).map_err(|e| Failure::new("dts-unreadable", e, detail.clone()))?;
     let j_ex = exports_of(&js).map_err(|e| Failure::new("js-unreadable", e, detail.clone()))?;
     // resolved document of the main file, in definition order
-    let mut resolved: Vec<MExecDef> = main_doc.iter().filter(|d| !matches!(d, MExecDef::Import(_))).cloned().collect();
-    resolved.extend(lib_doc.iter().cloned());
+    let resolved: Vec<MExecDef> = {
+        let order = vh::conv::c_op_doc(&os.files[0].doc, &mut vh::conv::PosSink::default());
+        let mut out = vec![];
+        for d in &order {
+            let m = all_defs.iter().find(|x| match (x, d) {
+                (MExecDef::Op(a), MExecDef::Op(b)) => a.name == b.name && a.op == b.op,
+                (MExecDef::Frag(a), MExecDef::Frag(b)) => a.name == b.name,
+                _ => false,
+            });
+            match m {
+                Some(m) => out.push(m.clone()),
+                None => return Err(Failure::new("resolved-definition-unknown", format!("the resolved main document holds {:?}, which no file defines", def_name(d)), detail)),
+            }
+        }
+        out
+    };
     {
         let mut seen = std::collections::BTreeSet::new();
         if d_ex.consts.iter().any(|c| !seen.insert(c.clone())) {
